@@ -30,7 +30,7 @@ LEVEL_NOTE = ('one injected fault per run (bound = 1 deviation) at call granular
 RULE = ('two-call histories on one parameter file (first call succeeds or fails naturally, environment changed in between, second call swept with every fault point); configurations = full product of initial environment states x variants; per configuration k = 0 (no fault), natural failures, and k = 1..N for every call event whose caller frame '
         'belongs to the module under test. Non-trivial: a run that ends by an exception while the environment at the moment of the fault differs from the initial one (something had to be restored). '
         'Distinct: (entry point, configuration, k, exception class).')
-ASSUMPTIONS = ['assignments/deletions on os.environ are not themselves fault points (if restoring cannot be done, nothing can restore); pure str/list/dict methods and len/isinstance/... are not fault points; calls between functions of the module under test are not fault points themselves (their outgoing calls are)',
+ASSUMPTIONS = ['assignments/deletions on os.environ are not themselves fault points (if restoring cannot be done, nothing can restore); look-ups in os.environ are not fault points either (their answer is determined by the enumerated initial state); pure str/list/dict methods and len/isinstance/... are not fault points; calls between functions of the module under test are not fault points themselves (their outgoing calls are)',
                'collaborators are stubs; faults inside a collaborator after a partial side effect of its own are outside the bound',
                'exception classes injected: a RuntimeError subclass (quick) plus KeyError, OSError, ValueError (thorough)']
 MIN_OUTCOMES = 3
@@ -66,8 +66,11 @@ class Injector:
                 return
             if caller is not None and code.co_filename == caller.f_code.co_filename:
                 return      # intra-module call: its own outgoing calls are the fault points
-            if name in ('__setitem__', '__delitem__', 'pop', 'update', 'setdefault', 'clear', 'popitem') and \
-                    frame.f_locals.get('self') is os.environ:
+            if name in ('__setitem__', '__delitem__', 'pop', 'update', 'setdefault', 'clear', 'popitem',
+                        '__getitem__', 'get', '__contains__') and frame.f_locals.get('self') is os.environ:
+                # not fault points: writes (if restoring cannot be done nothing can restore) and look-ups - what a look-up
+                # answers (value or KeyError) is fixed by the initial state, and every initial state is enumerated; a KeyError
+                # injected for a variable that IS set would be read by correct code as "unset" and is not a possible failure
                 return
         elif event == 'c_call':
             caller = frame
